@@ -146,14 +146,38 @@ def _run_shard(job):
                     r.bad(v['key'], v['what'] + ' [second pass, cases in reverse order]', v['case'])
             r.stats['second_pass_cases_in_reverse_order'] += r2.evals
         out = r.export()
-    except BaseException:  # harness failure, not a property violation
-        out = {'label': label, 'harness_error': traceback.format_exc()}
+    except BaseException as exc:
+        out = _uncaught(exc, modname, label, fname, args, locals().get('r'))
     out['wall'] = time.time() - t0
     if trace:
         import resource
         sys.stderr.write('TRACE end   %s %.1fs maxrss=%dMB\n' % (
             label, out['wall'], resource.getrusage(resource.RUSAGE_SELF).ru_maxrss // 1024))
         sys.stderr.flush()
+    return out
+
+
+def _uncaught(exc, modname, label, fname, args, r):
+    """An exception ended a shard.  If it was raised INSIDE the code under test
+    (innermost frame in <repo>/cnfgen) it is something the check does not
+    expect of that code on an input the check considers legal: reported as a
+    violation of its own key, together with what the shard had found so far
+    (on the unchanged tree no shard ends this way).  Anything else is a failure
+    of the harness: no verdict."""
+    tb = traceback.extract_tb(exc.__traceback__)
+    repo = os.path.realpath(os.environ.get('VERIF_REPO') or REPO)
+    inner = tb[-1] if tb else None
+    in_repo = inner is not None and os.path.realpath(inner.filename).startswith(os.path.join(repo, 'cnfgen') + os.sep)
+    if not in_repo or isinstance(exc, (KeyboardInterrupt, SystemExit, MemoryError)) or r is None:
+        return {'label': label, 'harness_error': traceback.format_exc()}
+    rel = os.path.relpath(os.path.realpath(inner.filename), repo)
+    key = 'uncaught:%s@%s:%s' % (type(exc).__name__, rel, inner.name)
+    frames = ' <- '.join('%s:%d %s' % (os.path.basename(f.filename), f.lineno, f.name) for f in reversed(tb[-6:]))
+    r.bad(key, 'shard %s stopped at %s(%s) raised by the code under test, which the check does not expect on the '
+               'inputs it uses: %s' % (label, type(exc).__name__, str(exc)[:200], frames),
+          {'rerun_shard': {'module': modname, 'label': label, 'fname': fname, 'args': jsonable(args)}})
+    out = r.export()
+    out['stats']['shards_stopped_by_an_exception_of_the_code_under_test'] = 1
     return out
 
 
@@ -328,6 +352,22 @@ def run_replay(path):
     with open(path) as f:
         data = json.load(f)
     mod = importlib.import_module(data['module'])
+    if isinstance(data['case'], dict) and 'rerun_shard' in data['case']:
+        # the violation is an exception that stopped a whole shard: run it again
+        rs = data['case']['rerun_shard']
+        if hasattr(mod, 'preload'):
+            mod.preload()
+        res = _run_shard((rs['module'], rs['label'], rs['fname'], rs['args']))
+        hit = [v for v in res.get('violations', []) if v['key'].startswith('uncaught:')]
+        if 'harness_error' in res:
+            print('HARNESS-ERROR %s' % res['harness_error'])
+            return 2
+        if not hit:
+            print('replay %s: property holds on this case' % path)
+            return 0
+        print('VIOLATION property=%s replay=%s' % (data['property'], path))
+        print('  key=%s what=%s' % (hit[0]['key'], hit[0]['what']))
+        return 1
     first = mod.replay(data['case'])
     second = mod.replay(data['case'])
     k1 = sorted((v['key'], v['what']) for v in first)
